@@ -59,6 +59,8 @@ fn hist_cfg(tier: Tier, index: u64) -> crate::gen::HistCfg {
         special_keys: index % 4 == 0,
         default_table: false,
         big_table: None,
+        empty_mid: false,
+        empty_end: false,
     };
     let _ = &mut c;
     c
